@@ -3,7 +3,7 @@
 # Confirms in a scratch worktree that the change (a) compiles, (b) passes the pinned suite, (c) makes the demo fail,
 # and that the demo passes without it; then stores it as /verif/seeded/<seed-id>/.
 set -u
-SRC=$(realpath "$1"); ID="$2"; PROP="$3"; FEAT="${4:-}"
+SRC=$(realpath "$1"); ID="$2"; PROP="$3"; FEAT="${4:-}"; XF="${5:-}"   # XF: extra cargo test flags for the demo, e.g. --release
 WT=${CONFIRM_WT:-/tmp/mut/confirm}
 if [ ! -d $WT ]; then git -C /repo worktree add --detach $WT HEAD >/dev/null 2>&1; cp /repo/Cargo.lock $WT/; fi
 cd $WT || exit 2
@@ -11,9 +11,9 @@ git checkout -q --detach $(git -C /repo rev-parse HEAD) 2>/dev/null
 git checkout -- . ; rm -f tests/demo_seed.rs
 FA=""; [ -n "$FEAT" ] && FA="--features $FEAT"
 mkdir -p tests; cp "$SRC/demo.rs" tests/demo_seed.rs
-clean_demo=$(cargo test --offline $FA --test demo_seed 2>&1 | grep -E "^test result" | tail -1)
+clean_demo=$(cargo test --offline $XF $FA --test demo_seed 2>&1 | grep -E "^test result" | tail -1)
 git apply "$SRC/patch.diff" || { echo "$ID: patch does not apply"; exit 2; }
-mut_demo=$(cargo test --offline $FA --test demo_seed 2>&1 | grep -E "^test result|error(\[|:)" | tail -1)
+mut_demo=$(cargo test --offline $XF $FA --test demo_seed 2>&1 | grep -E "^test result|error(\[|:)" | tail -1)
 rm -f tests/demo_seed.rs
 suite=$(cargo nextest run --workspace --no-fail-fast --offline --test-threads 8 2>&1 | grep -E "Summary" | tail -1)
 git checkout -- .
@@ -22,7 +22,7 @@ ok=no
 if echo "$clean_demo" | grep -q "test result: ok" && echo "$mut_demo" | grep -qE "FAILED|test failed" && echo "$suite" | grep -q "111 passed"; then ok=yes; fi
 D=/verif/seeded/$ID; mkdir -p $D
 cp "$SRC/patch.diff" $D/patch.diff; cp "$SRC/demo.rs" $D/demo.rs; cp "$SRC/notes.md" $D/notes.md 2>/dev/null
-python3 - "$D" "$ID" "$PROP" "$FEAT" "$clean_demo" "$mut_demo" "$suite" "$ok" <<'PY'
+python3 - "$D" "$ID" "$PROP" "$FEAT $XF" "$clean_demo" "$mut_demo" "$suite" "$ok" <<'PY'
 import json,sys
 d,i,prop,feat,cd,md,su,ok=sys.argv[1:]
 notes=open(d+"/notes.md").read() if __import__("os").path.exists(d+"/notes.md") else ""
